@@ -76,6 +76,9 @@ class Gen(object):
         if name == 'Double':
             return r.choice([0.0, -1.0, 1e300, 2.5e-300, 0.1, 12345.6789]) if r.random() < 0.5 else r.uniform(-1e6, 1e6)
         if name == 'String':
+            if r.random() < 0.004:
+                # within the protocol's 32767-character limit, but longer than 32767 bytes
+                return r.choice(['\u20ac' * 11000, '\u00e9' * 16400, '\U0001F600' * 9000])
             if r.random() < 0.5:
                 return r.choice(['', 'a', 'héllo € \U0001F600', 'x' * 127, 'y' * 128, '{"text":"hi"}'])
             # text is any sequence of code points: formatting codes (section sign), control characters, byte order marks,
